@@ -25,9 +25,12 @@ def run(chk):
                 n[0] += 1
                 if n[0] in (500, 9000) or (v[0] == "TYPE" and n[0] % 50 == 0 and len(chk.cov["samples"]) < 3):
                     chk.sample({"tlc_case": v})
-        r = vlib.tlc("MC_Names", "MC_Names_q.cfg" if chk.quick else "MC_Names_t.cfg", work, workers=8, on_json=on_json, timeout=6000)
-    vlib.tlc_must_pass(r, "MC_Names")
-    chk.add_tlc(r)
+        sfx = "q" if chk.quick else "t"
+        # all strings over the full alphabet, then all strings after the prefixes "1e" and "1." (exponent and fraction parts)
+        for cfg in ("MC_Names_%s.cfg" % sfx, "MC_Names_exp_%s.cfg" % sfx, "MC_Names_frac_%s.cfg" % sfx):
+            r = vlib.tlc("MC_Names", cfg, work, workers=8, on_json=on_json, timeout=6000)
+            vlib.tlc_must_pass(r, cfg)
+            chk.add_tlc(r)
     summary, bad = vlib.replay_cases(chk, ["names-replay"], cases)
     vlib.canary_replay(chk, ["names-replay"], ["STR", [65, 49], False, False, False], "IsName flipped")
     chk.stage("enumeration")
